@@ -1,5 +1,732 @@
 import SemVerif.Spec.Preds
 import SemVerif.Inventory
-/-! # Property C11 — theorems (under construction) -/
+import SemVerif.Lemmas.StmtSteps
+import SemVerif.Lemmas.Frames
+import SemVerif.Lemmas.T1Ctl
+import SemVerif.Lemmas.T1Fn
+/-!
+# Property C11 — each accepted function ends in one return of the right form
+
+`Inv11` is the invariant of the whole analysis of a function body:
+* `flag`: every live block carries the same manual-return flag, and the flag says whether the
+  root stack already holds a jump-to-return (the flag is raised on the block and all its ancestors
+  together with the push, and a new child inherits it);
+* `eq`: the jump-to-returns of the root stack are exactly those of its finished children plus
+  those of its live child — nothing pushes one at function level.
+
+`Keep s s'` (invariant preserved, number of function returns in the root stack unchanged) is shown
+for every expression-level step, every label/jump push and every control construct by mutual
+structural induction; the function-level statement loop then shows that an analysis that reports
+no error pushes exactly one function return, as the last instruction, of the form the flag selects.
+-/
 namespace SemVerif
+
+def cntF (l : List Instr) : Nat := countP Instr.isFnReturn l
+def cntJ (l : List Instr) : Nat := countP Instr.isJumpReturn l
+
+theorem cntJ_snoc (l : List Instr) (i : Instr) : cntJ (l ++ [i]) = cntJ l + (if i.isJumpReturn then 1 else 0) := by
+  unfold cntJ countP; rw [List.filter_append]; cases h : i.isJumpReturn <;> simp [List.filter, h]
+theorem cntF_snoc (l : List Instr) (i : Instr) : cntF (l ++ [i]) = cntF l + (if i.isFnReturn then 1 else 0) := by
+  unfold cntF countP; rw [List.filter_append]; cases h : i.isFnReturn <;> simp [List.filter, h]
+
+theorem isRet_false {i : Instr} (h : i.isRet = false) : i.isFnReturn = false ∧ i.isJumpReturn = false := by
+  unfold Instr.isRet at h; simpa using h
+
+theorem isRet_of_writes {i : Instr} {r : Nat} (h : i.writes = some r) : i.isRet = false := by
+  cases i <;> simp [Instr.writes] at h <;> rfl
+theorem isRet_of_declares {i : Instr} {v : Value} (h : i.declares = some v) : i.isRet = false := by
+  cases i <;> simp [Instr.declares] at h <;> rfl
+
+/-- jump-to-returns in the stacks of the finished children -/
+def kidsJ (b : Block) : Nat := (b.children.map fun c => countP Instr.isJumpReturn c.context).sum
+/-- jump-to-returns in the stack of the root's live child -/
+def liveJ (s : St) : Nat := match s.inner.getLast? with
+  | some b => cntJ b.context
+  | none => 0
+
+structure Inv11 (s : St) : Prop where
+  flag : ∀ b ∈ s.frames, b.manualReturn = decide (0 < cntJ s.root.context)
+  eq : cntJ s.root.context = kidsJ s.root + liveJ s
+
+structure Keep (s s' : St) : Prop where
+  f : cntF s'.root.context = cntF s.root.context
+  inv : Inv11 s → Inv11 s'
+
+theorem Keep.refl (s : St) : Keep s s := ⟨rfl, id⟩
+theorem Keep.trans {a b c : St} (h1 : Keep a b) (h2 : Keep b c) : Keep a c :=
+  ⟨h2.f.trans h1.f, fun h => h2.inv (h1.inv h)⟩
+
+theorem inv11_init : Inv11 St.init := by
+  refine ⟨?_, ?_⟩
+  · intro b hb; simp [St.frames, St.init] at hb; subst hb; simp [St.init, Block.fresh, cntJ, countP]
+  · simp [St.init, Block.fresh, cntJ, countP, kidsJ, liveJ]
+
+theorem inv11_mapFrames (f : Block → Block) (s : St) (hm : ∀ b, (f b).manualReturn = b.manualReturn)
+    (hj : ∀ b, cntJ (f b).context = cntJ b.context)
+    (hk : ∀ b, kidsJ (f b) = kidsJ b) (h : Inv11 s) : Inv11 (s.mapFrames f) := by
+  refine ⟨?_, ?_⟩
+  · intro b hb
+    rw [frames_mapFrames] at hb
+    simp only [List.mem_map] at hb
+    obtain ⟨b0, hb0, rfl⟩ := hb
+    rw [hm, root_mapFrames, hj]; exact h.flag b0 hb0
+  · rw [root_mapFrames, hj, hk, h.eq]
+    congr 1
+    unfold liveJ St.mapFrames
+    simp only [List.getLast?_map]
+    cases s.inner.getLast? <;> simp [hj]
+
+theorem keep_mapFrames (f : Block → Block) (s : St) (hm : ∀ b, (f b).manualReturn = b.manualReturn)
+    (hj : ∀ b, cntJ (f b).context = cntJ b.context) (hf : ∀ b, cntF (f b).context = cntF b.context)
+    (hk : ∀ b, kidsJ (f b) = kidsJ b) : Keep s (s.mapFrames f) :=
+  ⟨hf _, inv11_mapFrames f s hm hj hk⟩
+
+/-- pushing anything but a jump-to-return keeps the invariant -/
+theorem inv11_push (i : Instr) (s : St) (hj : i.isJumpReturn = false) (h : Inv11 s) : Inv11 (s.push i) := by
+  unfold St.push
+  exact inv11_mapFrames _ s (fun _ => rfl) (fun b => by simp [cntJ_snoc, hj]) (fun _ => rfl) h
+
+theorem keep_mapCur (f : Block → Block) (s : St) (hm : ∀ b, (f b).manualReturn = b.manualReturn)
+    (hj : ∀ b, cntJ (f b).context = cntJ b.context) (hf : ∀ b, cntF (f b).context = cntF b.context)
+    (hk : ∀ b, kidsJ (f b) = kidsJ b) : Keep s (s.mapCur f) := by
+  unfold St.mapCur
+  cases hi : s.inner with
+  | nil =>
+    refine ⟨hf _, fun h => ⟨?_, ?_⟩⟩
+    · intro b hb
+      simp [St.frames, hi] at hb
+      subst hb
+      simp only [hm, hj]; exact h.flag s.root (by simp [St.frames])
+    · have := h.eq
+      simp only [liveJ, hi, List.getLast?_nil] at this ⊢
+      rw [hj, hk]; exact this
+  | cons b0 rest =>
+    refine ⟨rfl, fun h => ⟨?_, ?_⟩⟩
+    · intro b hb
+      simp only [St.frames, List.mem_append, List.mem_cons, List.mem_singleton, List.not_mem_nil, or_false] at hb
+      rcases hb with (rfl | hb) | rfl
+      · rw [hm]; exact h.flag b0 (by simp [St.frames, hi])
+      · exact h.flag b (by simp [St.frames, hi, hb])
+      · exact h.flag s.root (by simp [St.frames])
+    · have := h.eq
+      simp only [liveJ, hi] at this ⊢
+      rw [this]
+      cases rest with
+      | nil => simp [hj]
+      | cons c rest' => simp [List.getLast?_cons_cons]
+
+theorem keep_push (i : Instr) (s : St) (hr : i.isRet = false) : Keep s (s.push i) := by
+  unfold St.push
+  obtain ⟨h1, h2⟩ := isRet_false hr
+  exact keep_mapFrames _ s (fun _ => rfl) (fun b => by simp [cntJ_snoc, h2]) (fun b => by simp [cntF_snoc, h1]) (fun _ => rfl)
+
+theorem kidsJ_modifyNth (i : Instr) (h : i.isJumpReturn = false) : ∀ (k : Nat) (cs : List Block),
+    ((modifyNth (fun c => { c with context := c.context ++ [i] }) k cs).map fun c => countP Instr.isJumpReturn c.context).sum =
+      (cs.map fun c => countP Instr.isJumpReturn c.context).sum
+  | _, [] => by unfold modifyNth; rfl
+  | 0, c :: cs => by
+    have := cntJ_snoc c.context i
+    unfold cntJ at this
+    simp [modifyNth, this, h]
+  | k + 1, c :: cs => by simp [modifyNth, kidsJ_modifyNth i h k cs]
+
+theorem keep_pushVia (k : Nat) (i : Instr) (s : St) (hr : i.isRet = false) : Keep s (s.pushVia k i) := by
+  unfold St.pushVia
+  refine Keep.trans (b := s.mapCur fun b =>
+    { b with children := modifyNth (fun c => { c with context := c.context ++ [i] }) k b.children }) ?_ (keep_push i _ hr)
+  refine keep_mapCur _ s ?_ ?_ ?_ ?_ <;> intro b
+  · rfl
+  · rfl
+  · rfl
+  unfold kidsJ
+  exact kidsJ_modifyNth i (isRet_false hr).2 k b.children
+
+theorem keep_probeLabel (stem : Name) (s : St) : Keep s (s.probeLabel stem).2 := by
+  unfold St.probeLabel
+  exact keep_mapFrames _ s (fun _ => rfl) (fun _ => rfl) (fun _ => rfl) (fun _ => rfl)
+
+theorem keep_addErr (k : ErrKind) (v : Name) (l o : Nat) (s : St) : Keep s (s.addErr k v l o) :=
+  ⟨rfl, fun h => ⟨h.flag, h.eq⟩⟩
+
+theorem keep_setPanic (site : Nat) (s : St) : Keep s (s.setPanic site) := by
+  unfold St.setPanic; cases s.panic <;> exact ⟨rfl, fun h => ⟨h.flag, h.eq⟩⟩
+
+theorem keep_enter (s : St) : Keep s s.enter := by
+  refine ⟨rfl, fun h => ⟨?_, ?_⟩⟩
+  · intro b hb
+    rw [frames_enter] at hb
+    simp only [List.mem_cons] at hb
+    rcases hb with rfl | hb
+    · exact h.flag s.cur (cur_mem_frames s)
+    · exact h.flag b hb
+  · have := h.eq
+    simp only [root_enter]
+    rw [this]
+    congr 1
+    unfold liveJ St.enter St.cur
+    cases s.inner with
+    | nil => simp [Block.child, cntJ, countP]
+    | cons b rest => simp [List.getLast?_cons_cons]
+
+theorem keep_leave (s : St) : Keep s s.leave.2 := by
+  unfold St.leave
+  cases hi : s.inner with
+  | nil => exact Keep.refl _
+  | cons b rest =>
+    cases rest with
+    | nil =>
+      refine ⟨rfl, fun h => ⟨?_, ?_⟩⟩
+      · intro b' hb'
+        simp [St.frames] at hb'
+        subst hb'
+        exact h.flag s.root (by simp [St.frames])
+      · have := h.eq
+        simp only [liveJ, hi, List.getLast?_singleton] at this
+        simp only [liveJ, List.getLast?_nil, kidsJ, List.map_append, List.sum_append, List.map_cons, List.map_nil,
+          List.sum_cons, List.sum_nil, Nat.add_zero]
+        rw [this]; rfl
+    | cons p rest' =>
+      refine ⟨rfl, fun h => ⟨?_, ?_⟩⟩
+      · intro b' hb'
+        simp only [St.frames, List.mem_append, List.mem_cons, List.mem_singleton, List.not_mem_nil, or_false] at hb'
+        rcases hb' with (rfl | hb') | rfl
+        · exact h.flag p (by simp [St.frames, hi])
+        · exact h.flag b' (by simp [St.frames, hi, hb'])
+        · exact h.flag s.root (by simp [St.frames])
+      · have := h.eq
+        simp only [liveJ, hi] at this ⊢
+        rw [this]
+        cases rest' with
+        | nil => simp [List.getLast?_cons_cons]
+        | cons c r => simp [List.getLast?_cons_cons]
+
+/-- a nested return (jump-to-return pushed, flag raised) inside some child block -/
+theorem keep_jumpRet (r : ExprResult) (s : St) (hin : s.inner ≠ []) : Keep s (s.push (.jumpFnReturn r)).setReturn := by
+  refine ⟨?_, fun h => ⟨?_, ?_⟩⟩
+  · simp [St.setReturn, St.push, St.mapFrames, cntF_snoc, Instr.isFnReturn]
+  · intro b hb
+    have hroot : cntJ ((s.push (.jumpFnReturn r)).setReturn).root.context = cntJ s.root.context + 1 := by
+      simp [St.setReturn, St.push, St.mapFrames, cntJ_snoc, Instr.isJumpReturn]
+    rw [hroot]
+    unfold St.setReturn at hb
+    rw [frames_mapFrames] at hb
+    simp only [List.mem_map] at hb
+    obtain ⟨b0, _, rfl⟩ := hb
+    simp
+  · have := h.eq
+    have hroot : cntJ ((s.push (.jumpFnReturn r)).setReturn).root.context = cntJ s.root.context + 1 := by
+      simp [St.setReturn, St.push, St.mapFrames, cntJ_snoc, Instr.isJumpReturn]
+    have hk : kidsJ ((s.push (.jumpFnReturn r)).setReturn).root = kidsJ s.root := rfl
+    rw [hroot, hk, this, Nat.add_assoc]
+    congr 1
+    unfold liveJ St.setReturn St.push St.mapFrames
+    simp only [List.map_map, List.getLast?_map]
+    cases hl : s.inner.getLast? with
+    | none => rw [List.getLast?_eq_none_iff] at hl; exact absurd hl hin
+    | some b => simp [cntJ_snoc, Instr.isJumpReturn]
+
+theorem keep_estep {s s' : St} (st : EStep s s') : Keep s s' := by
+  cases st with
+  | incReg =>
+    unfold St.incReg
+    exact keep_mapFrames _ s (fun _ => rfl) (fun _ => rfl) (fun _ => rfl) (fun _ => rfl)
+  | emit i _ _ _ _ hr => exact keep_push i s hr
+  | incEmit i hw _ _ _ =>
+    refine Keep.trans ?_ (keep_push i _ (isRet_of_writes hw))
+    unfold St.incReg
+    exact keep_mapFrames _ s (fun _ => rfl) (fun _ => rfl) (fun _ => rfl) (fun _ => rfl)
+  | addErr k v l o => exact keep_addErr k v l o s
+  | declare n v i hi _ _ _ _ =>
+    refine Keep.trans (Keep.trans (b := s.insertValue n v) ?_ ?_) (keep_push i _ (isRet_of_declares hi))
+    · unfold St.insertValue
+      exact keep_mapCur _ s (fun _ => rfl) (fun _ => rfl) (fun _ => rfl) (fun _ => rfl)
+    · unfold St.registerInner
+      exact keep_mapFrames _ _ (fun _ => rfl) (fun _ => rfl) (fun _ => rfl) (fun _ => rfl)
+
+theorem keep_esteps {s s' : St} (h : ESteps s s') : Keep s s' := by
+  induction h with
+  | refl => exact Keep.refl _
+  | tail _ st ih => exact ih.trans (keep_estep st)
+
+
+/-! ### Control constructs -/
+
+/-- invariant kept and the same nesting depth -/
+def KB (s s' : St) : Prop := Keep s s' ∧ s'.inner.length = s.inner.length
+
+theorem KB.refl (s : St) : KB s s := ⟨Keep.refl s, rfl⟩
+theorem KB.trans {a b c : St} (h1 : KB a b) (h2 : KB b c) : KB a c := ⟨h1.1.trans h2.1, h2.2.trans h1.2⟩
+theorem kb_esteps {s s' : St} (h : ESteps s s') : KB s s' := ⟨keep_esteps h, h.inner_len⟩
+theorem kb_push (i : Instr) (s : St) (hr : i.isRet = false) : KB s (s.push i) := ⟨keep_push i s hr, (push_fields i s).2⟩
+theorem kb_pushVia (k : Nat) (i : Instr) (s : St) (hr : i.isRet = false) : KB s (s.pushVia k i) :=
+  ⟨keep_pushVia k i s hr, (pushVia_fields k i s).2⟩
+theorem kb_probeLabel (stem : Name) (s : St) : KB s (s.probeLabel stem).2 := ⟨keep_probeLabel stem s, (probeLabel_fields stem s).2⟩
+
+theorem keep_ifPrologue (g : Globals) (cond : IfCond) (dup isElse : Bool) (labelEnd : Option Name) (s : St) :
+    Keep s (ifPrologue g cond dup isElse labelEnd s).2.2 ∧
+    (ifPrologue g cond dup isElse labelEnd s).2.2.inner.length = s.inner.length + 1 := by
+  unfold ifPrologue ifLabels
+  dsimp only
+  have h0 : KB s (if dup then s.addErr .ifElseDuplicated "if-condition".toList 1 0 else s) := by
+    cases dup
+    · exact KB.refl _
+    · exact ⟨keep_addErr _ _ _ _ s, rfl⟩
+  generalize (if dup then s.addErr .ifElseDuplicated "if-condition".toList 1 0 else s) = s0 at h0
+  have h1 : Keep s s0.enter ∧ s0.enter.inner.length = s.inner.length + 1 :=
+    ⟨h0.1.trans (keep_enter s0), by simp [St.enter, h0.2]⟩
+  have up : ∀ {a b : St}, (Keep s a ∧ a.inner.length = s.inner.length + 1) → KB a b →
+      (Keep s b ∧ b.inner.length = s.inner.length + 1) := fun h k => ⟨h.1.trans k.1, by rw [k.2, h.2]⟩
+  have h2 := up h1 (kb_probeLabel "if_begin".toList s0.enter)
+  generalize s0.enter.probeLabel "if_begin".toList = p1 at h2
+  obtain ⟨lb, s2⟩ := p1
+  have h3 := up h2 (kb_probeLabel "if_else".toList s2)
+  generalize s2.probeLabel "if_else".toList = p2 at h3
+  obtain ⟨le, s3⟩ := p2
+  dsimp only at h3 ⊢
+  cases labelEnd with
+  | some l =>
+    dsimp only
+    exact up (up h3 (kb_esteps (esteps_ifCondCalc g cond lb le l isElse s3))) (kb_push _ _ rfl)
+  | none =>
+    dsimp only
+    have h4 := up h3 (kb_probeLabel "if_end".toList s3)
+    generalize s3.probeLabel "if_end".toList = p3 at h4
+    obtain ⟨ln, s4⟩ := p3
+    exact up (up h4 (kb_esteps (esteps_ifCondCalc g cond lb le ln isElse s4))) (kb_push _ _ rfl)
+
+theorem keep_ifAfterBody (isElse r : Bool) (lElse lEnd : Name) (s : St) : Keep s (ifAfterBody isElse r lElse lEnd s).2 := by
+  unfold ifAfterBody
+  dsimp only
+  have h0 : Keep s (if r then s else s.push (.jumpTo lEnd)) := by
+    cases r
+    · exact keep_push _ _ rfl
+    · exact Keep.refl _
+  generalize (if r then s else s.push (.jumpTo lEnd)) = s0 at h0
+  have h1 : Keep s (if isElse then s0.push (.setLabel lElse) else s0) := by
+    cases isElse
+    · exact h0
+    · exact h0.trans (keep_push _ _ rfl)
+  exact h1.trans (keep_leave _)
+
+theorem keep_ifAfterElse (k : Nat) (r : Bool) (lEnd : Name) (s : St) : Keep s (ifAfterElse k r lEnd s) := by
+  unfold ifAfterElse
+  dsimp only
+  cases r
+  · exact (keep_leave s).trans (keep_pushVia _ _ _ rfl)
+  · exact keep_leave s
+
+theorem kb_ifEpilogue (k : Nat) (labelEnd : Option Name) (lEnd : Name) (s : St) : KB s (ifEpilogue k labelEnd lEnd s) := by
+  unfold ifEpilogue
+  cases labelEnd
+  · exact kb_pushVia _ _ _ rfl
+  · exact KB.refl _
+
+theorem keep_loopPrologue (s : St) : Keep s (loopPrologue s).2.2 := by
+  unfold loopPrologue
+  dsimp only
+  have h1 := keep_enter s
+  have h2 := h1.trans (keep_probeLabel "loop_begin".toList s.enter)
+  generalize s.enter.probeLabel "loop_begin".toList = p1 at h2
+  obtain ⟨lb, s2⟩ := p1
+  have h3 := h2.trans (keep_probeLabel "loop_end".toList s2)
+  generalize s2.probeLabel "loop_end".toList = p2 at h3
+  obtain ⟨le, s3⟩ := p2
+  exact (h3.trans (keep_push _ _ rfl)).trans (keep_push _ _ rfl)
+
+theorem keep_loopEpilogue (r : Bool) (lb le : Name) (s : St) : Keep s (loopEpilogue r lb le s) := by
+  unfold loopEpilogue
+  dsimp only
+  cases r
+  · exact ((keep_push _ _ rfl).trans (keep_push _ _ rfl)).trans (keep_leave _)
+  · exact keep_leave _
+
+theorem kb_nestedReturn (g : Globals) (e : Expr) (s : St) (hin : 0 < s.inner.length) : KB s (nestedReturn g e s).1 := by
+  refine ⟨?_, nestedReturn_len e s⟩
+  obtain ⟨s1, h1, h | ⟨r, h⟩⟩ := esteps_nestedReturn_pre g e s
+  · rw [h]; exact keep_esteps h1
+  · rw [h]
+    refine (keep_esteps h1).trans (keep_jumpRet r s1 ?_)
+    intro hn
+    have := h1.inner_len
+    rw [hn] at this
+    simp at this
+    omega
+
+theorem kb_loopWrap (k : Name → Name → Bool → Bool → Bool → St → St × Bool)
+    (hk : ∀ lb le rc bc cc s, 0 < s.inner.length → KB s (k lb le rc bc cc s).1) (s : St) : KB s (loopWrap k s) := by
+  unfold loopWrap
+  dsimp only
+  have h1 := keep_loopPrologue s
+  have l1 := (loopPrologue_fields s).2.2
+  generalize loopPrologue s = p at h1 l1
+  obtain ⟨lb, le, s1⟩ := p
+  dsimp only at h1 l1 ⊢
+  have h2 := hk lb le false false false s1 (by omega)
+  generalize k lb le false false false s1 = q at h2
+  obtain ⟨s2, r⟩ := q
+  dsimp only at h2 ⊢
+  have hin2 : s2.inner ≠ [] := inner_ne_of_len (n := s.inner.length) (by rw [h2.2, l1])
+  have l3 := (loopEpilogue_fields r lb le s2 hin2).2.2
+  exact ⟨(h1.trans h2.1).trans (keep_loopEpilogue r lb le s2), by have := h2.2; omega⟩
+
+mutual
+theorem kb_ifCondition (g : Globals) : ∀ (i : IfStmt) (le : Option Name) (ll : Option (Name × Name)) (s : St),
+    KB s (ifCondition g i le ll s)
+  | .mk cond body els elif, labelEnd, labelLoop, s => by
+    unfold ifCondition
+    dsimp only
+    have h1 := keep_ifPrologue g cond (els.isSome && elif.isSome) (els.isSome || elif.isSome) labelEnd s
+    generalize ifPrologue g cond (els.isSome && elif.isSome) (els.isSome || elif.isSome) labelEnd s = p at h1
+    obtain ⟨lElse, lEnd, s1⟩ := p
+    dsimp only at h1 ⊢
+    have h2 := kb_ifBodies g body lEnd labelLoop s1 (by omega)
+    generalize ifBodies g body lEnd labelLoop s1 = q at h2
+    obtain ⟨s2, r⟩ := q
+    dsimp only at h2 ⊢
+    have hin2 : s2.inner ≠ [] := inner_ne_of_len (n := s.inner.length) (by rw [h2.2, h1.2])
+    have h3 : KB s (ifAfterBody (els.isSome || elif.isSome) r lElse lEnd s2).2 :=
+      ⟨(h1.1.trans h2.1).trans (keep_ifAfterBody _ r lElse lEnd s2), by
+        have := (ifAfterBody_fields (els.isSome || elif.isSome) r lElse lEnd s2 hin2).2.2
+        have := h2.2; have := h1.2; omega⟩
+    generalize ifAfterBody (els.isSome || elif.isSome) r lElse lEnd s2 = q3 at h3
+    obtain ⟨k, s3⟩ := q3
+    dsimp only at h3 ⊢
+    refine KB.trans ?_ (kb_ifEpilogue k labelEnd lEnd _)
+    cases els with
+    | some eb =>
+      dsimp only
+      have l4 : s3.enter.inner.length = s3.inner.length + 1 := by simp [St.enter]
+      have h4 := kb_ifBodies g eb lEnd labelLoop s3.enter (by omega)
+      generalize ifBodies g eb lEnd labelLoop s3.enter = q4 at h4
+      obtain ⟨s4, r4⟩ := q4
+      dsimp only at h4 ⊢
+      have hin4 : s4.inner ≠ [] := inner_ne_of_len (n := s3.inner.length) (by rw [h4.2, l4])
+      exact ⟨((h3.1.trans (keep_enter s3)).trans h4.1).trans (keep_ifAfterElse k r4 lEnd s4), by
+        have := (ifAfterElse_fields k r4 lEnd s4 hin4).2.2
+        have := h4.2; have := h3.2; omega⟩
+    | none =>
+      cases elif with
+      | some ei => exact h3.trans (kb_ifCondition g ei (some lEnd) labelLoop s3)
+      | none => exact h3
+theorem kb_ifBodies (g : Globals) : ∀ (b : IfBodies) (lEnd : Name) (ll : Option (Name × Name)) (s : St),
+    0 < s.inner.length → KB s (ifBodies g b lEnd ll s).1
+  | .ifb l, lEnd, ll, s, hin => by unfold ifBodies; exact kb_ifBody g l lEnd ll false s hin
+  | .loopb l, lEnd, some (lb, le), s, hin => by unfold ifBodies; exact kb_ifLoopBody g l lEnd lb le false false false s hin
+  | .loopb _, _, none, s, _ => by
+    unfold ifBodies
+    exact ⟨keep_setPanic _ s, by unfold St.setPanic; cases s.panic <;> rfl⟩
+theorem kb_ifBody (g : Globals) : ∀ (l : List IfBodyStmt) (lEnd : Name) (ll : Option (Name × Name)) (rc : Bool) (s : St),
+    0 < s.inner.length → KB s (ifBody g l lEnd ll rc s).1
+  | [], _, _, _, s, _ => by unfold ifBody; exact KB.refl _
+  | st :: tl, lEnd, ll, rc, s, hin => by
+    unfold ifBody
+    dsimp only
+    have h0 := kb_esteps (esteps_forbidden rc false false s)
+    generalize forbidden rc false false s = s0 at h0
+    have next : ∀ (s1 : St) (rc' : Bool), KB s0 s1 → KB s (ifBody g tl lEnd ll rc' s1).1 := fun s1 rc' h1 =>
+      (h0.trans h1).trans (kb_ifBody g tl lEnd ll rc' s1 (by have := h0.2; have := h1.2; omega))
+    cases st with
+    | letB b => exact next _ _ (kb_esteps (esteps_letBinding g b s0))
+    | bind b => exact next _ _ (kb_esteps (esteps_binding g b s0))
+    | call c => exact next _ _ (kb_esteps (esteps_callStmt g c s0))
+    | ifS i => exact next _ _ (kb_ifCondition g i (some lEnd) ll s0)
+    | loop b => exact next _ _ (kb_loopWrap _ (kb_loopBody g b) s0)
+    | ret e =>
+      dsimp only
+      have h1 := kb_nestedReturn g e s0 (by have := h0.2; omega)
+      generalize nestedReturn g e s0 = q at h1
+      obtain ⟨s1, r⟩ := q
+      exact next s1 (rc || r) h1
+theorem kb_ifLoopBody (g : Globals) : ∀ (l : List IfLoopStmt) (lEnd lb le : Name) (rc bc cc : Bool) (s : St),
+    0 < s.inner.length → KB s (ifLoopBody g l lEnd lb le rc bc cc s).1
+  | [], _, _, _, _, _, _, s, _ => by unfold ifLoopBody; exact KB.refl _
+  | st :: tl, lEnd, lb, le, rc, bc, cc, s, hin => by
+    unfold ifLoopBody
+    dsimp only
+    have h0 := kb_esteps (esteps_forbidden rc bc cc s)
+    generalize forbidden rc bc cc s = s0 at h0
+    have next : ∀ (s1 : St) (rc' bc' cc' : Bool), KB s0 s1 → KB s (ifLoopBody g tl lEnd lb le rc' bc' cc' s1).1 :=
+      fun s1 rc' bc' cc' h1 =>
+        (h0.trans h1).trans (kb_ifLoopBody g tl lEnd lb le rc' bc' cc' s1 (by have := h0.2; have := h1.2; omega))
+    cases st with
+    | letB b => exact next _ _ _ _ (kb_esteps (esteps_letBinding g b s0))
+    | bind b => exact next _ _ _ _ (kb_esteps (esteps_binding g b s0))
+    | call c => exact next _ _ _ _ (kb_esteps (esteps_callStmt g c s0))
+    | ifS i => exact next _ _ _ _ (kb_ifCondition g i (some lEnd) (some (lb, le)) s0)
+    | loop b => exact next _ _ _ _ (kb_loopWrap _ (kb_loopBody g b) s0)
+    | ret e =>
+      dsimp only
+      have h1 := kb_nestedReturn g e s0 (by have := h0.2; omega)
+      generalize nestedReturn g e s0 = q at h1
+      obtain ⟨s1, r⟩ := q
+      exact next s1 (rc || r) bc cc h1
+    | cont => exact next _ _ _ _ (kb_push _ s0 rfl)
+    | brk => exact next _ _ _ _ (kb_push _ s0 rfl)
+theorem kb_loopBody (g : Globals) : ∀ (l : List LoopStmt) (lb le : Name) (rc bc cc : Bool) (s : St),
+    0 < s.inner.length → KB s (loopBody g l lb le rc bc cc s).1
+  | [], _, _, _, _, _, s, _ => by unfold loopBody; exact KB.refl _
+  | st :: tl, lb, le, rc, bc, cc, s, hin => by
+    unfold loopBody
+    dsimp only
+    have h0 := kb_esteps (esteps_forbidden rc bc cc s)
+    generalize forbidden rc bc cc s = s0 at h0
+    have next : ∀ (s1 : St) (rc' bc' cc' : Bool), KB s0 s1 → KB s (loopBody g tl lb le rc' bc' cc' s1).1 :=
+      fun s1 rc' bc' cc' h1 =>
+        (h0.trans h1).trans (kb_loopBody g tl lb le rc' bc' cc' s1 (by have := h0.2; have := h1.2; omega))
+    cases st with
+    | letB b => exact next _ _ _ _ (kb_esteps (esteps_letBinding g b s0))
+    | bind b => exact next _ _ _ _ (kb_esteps (esteps_binding g b s0))
+    | call c => exact next _ _ _ _ (kb_esteps (esteps_callStmt g c s0))
+    | ifS i => exact next _ _ _ _ (kb_ifCondition g i none (some (lb, le)) s0)
+    | loop b => exact next _ _ _ _ (kb_loopWrap _ (kb_loopBody g b) s0)
+    | ret e =>
+      dsimp only
+      have h1 := kb_nestedReturn g e s0 (by have := h0.2; omega)
+      generalize nestedReturn g e s0 = q at h1
+      obtain ⟨s1, r⟩ := q
+      exact next s1 (rc || r) bc cc h1
+    | brk => exact next _ _ _ _ (kb_push _ s0 rfl)
+    | cont => exact next _ _ _ _ (kb_push _ s0 rfl)
+end
+
+
+/-! ### Function level -/
+
+/-- the last instruction is a function return whose form agrees with the jump-to-returns before it -/
+def formOK (ctx : List Instr) : Prop :=
+  match ctx.getLast? with
+  | some (.fnReturnWithLabel _) => 0 < cntJ ctx
+  | some (.fnReturn _) => cntJ ctx = 0
+  | _ => False
+
+theorem nil_of_ext {α : Type} {a b : List α} (h : ∃ Δ, b = a ++ Δ) (hb : b = []) : a = [] := by
+  obtain ⟨Δ, h⟩ := h; rw [hb] at h; exact (List.append_eq_nil_iff.mp h.symm).1
+
+theorem body_cons_ext (g : Globals) (resTy : Ty) (st : BodyStmt) (tl : List BodyStmt) (rc : Bool) (s : St) :
+    ∃ Δ, (bodyStmts g resTy (st :: tl) rc s).1.errors = (forbidden rc false false s).errors ++ Δ := by
+  unfold bodyStmts
+  dsimp only
+  generalize forbidden rc false false s = s0
+  cases st with
+  | letB b => exact ext_of_steps ((esteps_letBinding g b s0).toSteps.trans (steps_bodyStmts g resTy tl rc _))
+  | bind b => exact ext_of_steps ((esteps_binding g b s0).toSteps.trans (steps_bodyStmts g resTy tl rc _))
+  | call c => exact ext_of_steps ((esteps_callStmt g c s0).toSteps.trans (steps_bodyStmts g resTy tl rc _))
+  | ifS i => exact ext_of_steps ((steps_ifCondition g i none none s0).trans (steps_bodyStmts g resTy tl rc _))
+  | loop b => exact ext_of_steps ((steps_loopWrap _ (steps_loopBody g b) s0).trans (steps_bodyStmts g resTy tl rc _))
+  | expr e =>
+    dsimp only
+    have h1 := steps_fnReturn g resTy e rc s0
+    generalize fnReturn g resTy e rc s0 = q at h1
+    obtain ⟨s1, r⟩ := q
+    exact ext_of_steps (h1.trans (steps_bodyStmts g resTy tl r s1))
+  | ret e =>
+    dsimp only
+    have h1 := steps_fnReturn g resTy e rc s0
+    generalize fnReturn g resTy e rc s0 = q at h1
+    obtain ⟨s1, r⟩ := q
+    exact ext_of_steps (h1.trans (steps_bodyStmts g resTy tl r s1))
+
+/-- an error-free remainder after a return is empty -/
+theorem body_after_ret (g : Globals) (resTy : Ty) (l : List BodyStmt) (s : St)
+    (h : (bodyStmts g resTy l true s).1.errors = []) : l = [] := by
+  cases l with
+  | nil => rfl
+  | cons st tl =>
+    have := nil_of_ext (body_cons_ext g resTy st tl true s) h
+    rw [forbidden_fn] at this
+    simp [St.addErr] at this
+
+theorem cur_of_nil {s : St} (h : s.inner.length = 0) : s.cur = s.root := by
+  unfold St.cur; cases hi : s.inner with
+  | nil => rfl
+  | cons b r => rw [hi] at h; simp at h
+
+structure Fin11 (s : St) : Prop where
+  inv : Inv11 s
+  len : s.inner.length = 0
+  one : cntF s.root.context = 1
+  form : formOK s.root.context
+
+theorem body11 (g : Globals) (resTy : Ty) : ∀ (l : List BodyStmt) (rc : Bool) (s : St),
+    s.inner.length = 0 → Inv11 s → cntF s.root.context = (if rc then 1 else 0) → (rc = true → formOK s.root.context) →
+    (bodyStmts g resTy l rc s).1.errors = [] → (bodyStmts g resTy l rc s).2 = true →
+    Fin11 (bodyStmts g resTy l rc s).1
+  | [], rc, s, hlen, hinv, hone, hform, _, hrc => by
+    unfold bodyStmts at hrc ⊢
+    dsimp only at hrc ⊢
+    subst hrc
+    exact ⟨hinv, hlen, by simpa using hone, hform rfl⟩
+  | st :: tl, rc, s, hlen, hinv, hone, hform, herr, hrc => by
+    have hs0 := nil_of_ext (body_cons_ext g resTy st tl rc s) herr
+    rw [forbidden_fn] at hs0
+    have hrcf : rc = false := by
+      cases rc with
+      | false => rfl
+      | true => simp [St.addErr] at hs0
+    subst hrcf
+    simp only [Bool.false_eq_true, if_false] at hs0 hone
+    unfold bodyStmts at herr hrc ⊢
+    dsimp only at herr hrc ⊢
+    rw [forbidden_fn] at herr hrc ⊢
+    simp only [Bool.false_eq_true, if_false] at herr hrc ⊢
+    have next : ∀ (s1 : St), KB s s1 → (bodyStmts g resTy tl false s1).1.errors = [] →
+        (bodyStmts g resTy tl false s1).2 = true → Fin11 (bodyStmts g resTy tl false s1).1 := fun s1 h1 he hr =>
+      body11 g resTy tl false s1 (by rw [h1.2, hlen]) (h1.1.inv hinv) (by rw [h1.1.f, hone]; rfl) (by intro h; cases h) he hr
+    cases st with
+    | letB b => exact next _ (kb_esteps (esteps_letBinding g b s)) herr hrc
+    | bind b => exact next _ (kb_esteps (esteps_binding g b s)) herr hrc
+    | call c => exact next _ (kb_esteps (esteps_callStmt g c s)) herr hrc
+    | ifS i => exact next _ (kb_ifCondition g i none none s) herr hrc
+    | loop b => exact next _ (kb_loopWrap _ (kb_loopBody g b) s) herr hrc
+    | expr e =>
+      dsimp only at herr hrc ⊢
+      obtain ⟨s2, h2, hq | ⟨r, hq⟩⟩ := fnReturn_split g resTy e false s
+      · rw [hq] at herr hrc ⊢
+        exact next s2 (kb_esteps h2) herr hrc
+      · rw [hq] at herr hrc ⊢
+        dsimp only at herr hrc ⊢
+        have htl := body_after_ret g resTy tl _ herr
+        subst htl
+        unfold bodyStmts
+        dsimp only
+        have k2 := kb_esteps h2
+        have i2 := k2.1.inv hinv
+        have l2 : s2.inner.length = 0 := by rw [k2.2, hlen]
+        have f2 : cntF s2.root.context = 0 := by rw [k2.1.f, hone]
+        have hflag := i2.flag s2.root (by simp [St.frames])
+        rw [cur_of_nil l2]
+        cases hm : s2.root.manualReturn with
+        | true =>
+          rw [hm] at hflag
+          simp only [if_true]
+          refine ⟨inv11_push _ _ rfl i2, by rw [(push_fields _ _).2, l2], ?_, ?_⟩
+          · simp [St.push, St.mapFrames, cntF_snoc, f2, Instr.isFnReturn]
+          · simp only [St.push, St.mapFrames, formOK, List.getLast?_append, List.getLast?_singleton, Option.some_or,
+              cntJ_snoc, Instr.isJumpReturn]
+            simpa using hflag.symm
+        | false =>
+          rw [hm] at hflag
+          simp only [Bool.false_eq_true, if_false]
+          refine ⟨inv11_push _ _ rfl i2, by rw [(push_fields _ _).2, l2], ?_, ?_⟩
+          · simp [St.push, St.mapFrames, cntF_snoc, f2, Instr.isFnReturn]
+          · simp only [St.push, St.mapFrames, formOK, List.getLast?_append, List.getLast?_singleton, Option.some_or,
+              cntJ_snoc, Instr.isJumpReturn]
+            simpa using hflag.symm
+    | ret e =>
+      dsimp only at herr hrc ⊢
+      obtain ⟨s2, h2, hq | ⟨r, hq⟩⟩ := fnReturn_split g resTy e false s
+      · rw [hq] at herr hrc ⊢
+        exact next s2 (kb_esteps h2) herr hrc
+      · rw [hq] at herr hrc ⊢
+        dsimp only at herr hrc ⊢
+        have htl := body_after_ret g resTy tl _ herr
+        subst htl
+        unfold bodyStmts
+        dsimp only
+        have k2 := kb_esteps h2
+        have i2 := k2.1.inv hinv
+        have l2 : s2.inner.length = 0 := by rw [k2.2, hlen]
+        have f2 : cntF s2.root.context = 0 := by rw [k2.1.f, hone]
+        have hflag := i2.flag s2.root (by simp [St.frames])
+        rw [cur_of_nil l2]
+        cases hm : s2.root.manualReturn with
+        | true =>
+          rw [hm] at hflag
+          simp only [if_true]
+          refine ⟨inv11_push _ _ rfl i2, by rw [(push_fields _ _).2, l2], ?_, ?_⟩
+          · simp [St.push, St.mapFrames, cntF_snoc, f2, Instr.isFnReturn]
+          · simp only [St.push, St.mapFrames, formOK, List.getLast?_append, List.getLast?_singleton, Option.some_or,
+              cntJ_snoc, Instr.isJumpReturn]
+            simpa using hflag.symm
+        | false =>
+          rw [hm] at hflag
+          simp only [Bool.false_eq_true, if_false]
+          refine ⟨inv11_push _ _ rfl i2, by rw [(push_fields _ _).2, l2], ?_, ?_⟩
+          · simp [St.push, St.mapFrames, cntF_snoc, f2, Instr.isFnReturn]
+          · simp only [St.push, St.mapFrames, formOK, List.getLast?_append, List.getLast?_singleton, Option.some_or,
+              cntJ_snoc, Instr.isJumpReturn]
+            simpa using hflag.symm
+
+
+theorem any_eq_countP (p : Instr → Bool) (l : List Instr) : l.any p = decide (0 < countP p l) := by
+  unfold countP
+  induction l with
+  | nil => rfl
+  | cons x xs ih =>
+    simp only [List.any_cons, List.filter_cons]
+    cases hx : p x
+    · simpa using ih
+    · simp
+
+theorem fin11_functionBody (g : Globals) (f : FnDecl) (h : (functionBody g f).errors = []) :
+    Fin11 (functionBody g f) := by
+  unfold functionBody at h ⊢
+  dsimp only at h ⊢
+  have k0 := kb_esteps (esteps_initParams f.params St.init paramInv_init)
+  generalize initParams f.params St.init = s0 at k0 h ⊢
+  have hb := body11 g f.result.toTy f.body false s0 (by rw [k0.2]; rfl) (k0.1.inv inv11_init)
+    (by rw [k0.1.f]; rfl) (by intro h; cases h)
+  generalize bodyStmts g f.result.toTy f.body false s0 = q at hb h ⊢
+  obtain ⟨s1, rc⟩ := q
+  cases rc with
+  | true => exact hb h rfl
+  | false => simp [St.addErr] at h
+
+/-- **C11 for one function**: an analysis of a function body that reports no error leaves a root stack that ends with
+exactly one function return, of the form selected by the jump-to-returns before it, and every jump-to-return of the
+root stack belongs to a nested block -/
+theorem C11_function (g : Globals) (f : FnDecl) (i : Nat) (h : (functionBody g f).errors = []) :
+    P_C11_block (functionBody g f).root i = [] := by
+  obtain ⟨inv, len, one, form⟩ := fin11_functionBody g f h
+  generalize functionBody g f = s at inv len one form
+  have hj := inv.eq
+  have hl : liveJ s = 0 := by
+    unfold liveJ
+    cases hi : s.inner with
+    | nil => rfl
+    | cons b r => rw [hi] at len; simp at len
+  rw [hl, Nat.add_zero] at hj
+  unfold P_C11_block
+  dsimp only
+  unfold formOK at form
+  unfold cntF at one
+  unfold cntJ kidsJ at hj
+  unfold cntJ at form
+  rw [any_eq_countP]
+  cases hg : s.root.context.getLast? with
+  | none => rw [hg] at form; exact absurd form id
+  | some x =>
+    rw [hg] at form
+    cases x <;> first
+      | exact absurd form id
+      | (simp only at form
+         rw [hj] at form
+         simp only [Instr.isFnReturn, if_true, List.nil_append, one, hj, beq_self_eq_true]
+         simp
+         omega)
+
+/-- **C11** — in every accepted program every function's stack ends in exactly one function return of the right form -/
+theorem C11 (p : Program) : P_C11g p (run p) = [] := by
+  unfold P_C11g acceptedWF Result.accepted
+  cases hp : (run p).panic.isNone && (run p).errors.isEmpty && WellFormedB p with
+  | false => rfl
+  | true =>
+    simp only [Bool.and_eq_true, List.isEmpty_iff] at hp
+    simp only [if_true]
+    have he := hp.1.2
+    unfold run at he ⊢
+    dsimp only at he ⊢
+    unfold P_C11
+    dsimp only
+    rw [List.flatMap_eq_nil_iff]
+    intro x hx
+    obtain ⟨b, i⟩ := x
+    have hm := List.fst_mem_of_mem_zipIdx hx
+    simp only [List.mem_map] at hm
+    obtain ⟨s, hs, rfl⟩ := hm
+    obtain ⟨f, hf, rfl⟩ := hs
+    have hall := (List.append_eq_nil_iff.mp he).2
+    rw [List.flatten_eq_nil_iff] at hall
+    exact C11_function _ f i (hall _ (by simp only [List.mem_map]; exact ⟨_, ⟨f, hf, rfl⟩, rfl⟩))
+
 end SemVerif
